@@ -1,4 +1,5 @@
 #![no_std]
+#![allow(unexpected_cfgs)] // cfg(cryptocorrosion_verif): verification hooks
 
 // Design:
 // - safety: safe creation of any machine type is done only by instance methods of a
